@@ -51,6 +51,7 @@ type Stream struct {
 	Segs      [][]byte
 	SegDurNS  []int64
 	FragsPer  int
+	LeadIn    float64 // seconds of non-leading media carried at the head of the next segment's file
 }
 
 func fill(seed uint64, n int) []byte {
@@ -134,7 +135,9 @@ func (s *Stream) Build(nSeg int, segLeadSamples int, tagBase int) error {
 		for {
 			// segment index by the leading timeline
 			relSec := float64(dts-t.Base+t.Skew) / float64(t.TimeScale)
-			seg := int(relSec / (float64(segTicks) / float64(lead.TimeScale)))
+			// LeadIn: the last LeadIn seconds of the other tracks travel in the next segment's file,
+			// ahead of its first leading-track unit (what real packagers that interleave by arrival do)
+			seg := int((relSec + s.LeadIn) / (float64(segTicks) / float64(lead.TimeScale)))
 			if t == lead {
 				seg = n / segLeadSamples
 			}
